@@ -359,6 +359,7 @@ var (
 		"L3":   {net.IP{10, 0, 0}, 7946},
 		"L5":   {net.IP{10, 0, 0, 2, 1}, 7946},
 		"L0":   {net.IP{}, 7946},
+		"NIL":  {nil, 7946}, // address field absent / msgpack nil
 		"L15":  {net.IP(bytes.Repeat([]byte{1}, 15)), 7946},
 		"L17":  {net.IP(bytes.Repeat([]byte{1}, 17)), 7946},
 	}
